@@ -53,6 +53,15 @@ def known_dict(values: Sequence[float], K: Iterable[int]) -> dict[int, Fraction]
     return {m: fr(values[m]) for m in K}
 
 
+def gap_tol(n: int, scale: float) -> float:
+    """Tolerance for gap / reward comparisons: RELATIVE to the magnitude of the game's values (no absolute floor, so
+    that games expressed in tiny units are judged as strictly as ordinary ones)."""
+    return 1e-9 * max(float(scale), 1e-300) * (1 << n)
+
+
+SCALES = (1.0, 1.0, 1.0, 1.0, 1e-7, 1e-3, 1e3, 1e6)
+
+
 def ulp_slack(n: int, scale: float, factor: float = 64.0) -> float:
     return factor * np.finfo(np.float64).eps * max(1, n) * max(scale, 1e-300)
 
